@@ -144,6 +144,11 @@ def record_samples(pa, rng, count, rep):
                        "sample": [[[fx(u.segment.start), fx(u.segment.end), labs[u.annotation]] for u in smp[a]]
                                   for a in sorted(smp.annotators, key=lambda s: int(s.split()[-1]) if s.split()[-1].isdigit() else 0)],
                        "uniforms": [fx(x) for x in draws]}
+                # int pivots on a reference whose times are exact in 1/1000: the arithmetic is exact, no tolerance (ties at the
+                # upper bound are then decided, not don't-care)
+                vals = [lo, hi] + [x for a in gta for u in ref[a] for x in (u.segment.start, u.segment.end)]
+                if mode == "int_pivot" and all(abs(v * K - round(v * K)) < 1e-9 for v in vals):
+                    rec["tol"] = 0
                 recs.append(rec)
                 metas.append({"pivot_type": mode, "bounds": [lo, hi], "ground_truth": gta, "avg_length_unit": ref.avg_length_unit,
                               "reference": {a: [[u.segment.start, u.segment.end, u.annotation] for u in ref[a]] for a in anns},
